@@ -199,6 +199,7 @@ func Load(cfg LoadConfig) (*Engine, error) {
 	e.MaxConcretize = 300
 	registerIntrinsics(e)
 	registerSQL(e)
+	registerJSON(e)
 	return e, nil
 }
 
